@@ -397,7 +397,8 @@ Definition ref_reply (wq : qn) (wt : ctype) (x : inode) : option pyval :=
 (* 1 = a nil occurrence comes first in a repeating member of an object
    2 = whitespace-only character data in a childless element of complex type
    5 = (debatable) an entirely empty element of complex type
-   6 = (debatable) an empty element of a nillable built-in type without xsi:nil *)
+   6 = (debatable) an empty element of a built-in type without xsi:nil
+   7 = (debatable) a wrapper type with attributes and at most one element member *)
 Definition no_real_attrs (ats : list iattr) : bool := forallb is_xsi ats.
 
 Fixpoint seen_key (key : str) (l : list inode) : bool :=
@@ -410,7 +411,7 @@ Fixpoint flags_node (dt : rtype) (nillable : bool) (x : inode) {struct x} : list
       match actual_type dt ats with
       | None => []
       | Some (RB k) =>
-          match text with [] => if nillable then [6%N] else [] | _ => [] end
+          match text with [] => [6%N] | _ => [] end
       | Some (RC ct) =>
           match kids with
           | [] => match text with
@@ -438,7 +439,10 @@ Fixpoint flags_node (dt : rtype) (nillable : bool) (x : inode) {struct x} : list
   end.
 
 Definition flags_reply (wt : ctype) (x : inode) : list N :=
-  (match flat_attrs S wt with [] => [] | _ => [7%N] end) ++
+  (match flat_attrs S wt with
+   | [] => []
+   | _ => if Nat.leb (length (flat_elems S wt)) 1 then [7%N] else []
+   end) ++
   match x with
   | IN u nm _ _ kids =>
       match find (fun k => str_eqb (i_nm k) s_Body && ostr_eqb (i_u k) u) kids with
@@ -478,12 +482,12 @@ Record case := mkCase {
 
 Definition case_wt (c : case) : option ctype := find_type (c_schema c) (c_wt c).
 
-Definition model_reply_with (sq pr : bool) (c : case) : dres pyval :=
+Definition model_reply_with (sq pr n1 : bool) (c : case) : dres pyval :=
   match case_wt c with
-  | Some wt => reply (c_schema c) (c_names c) (c_uris c) (c_kinds c) (c_globals c) sq pr wt (c_raw c)
+  | Some wt => reply (c_schema c) (c_names c) (c_uris c) (c_kinds c) (c_globals c) sq pr n1 wt (c_raw c)
   | None => DOther
   end.
-Definition model_reply (c : case) : dres pyval := model_reply_with false true c.
+Definition model_reply (c : case) : dres pyval := model_reply_with false true false c.
 
 Definition spec_reply (c : case) : option pyval :=
   match case_wt c with
@@ -522,10 +526,12 @@ Definition case_flags (c : case) : list N :=
   | Some wt => flags_reply (c_schema c) (c_names c) (c_uris c) (c_kinds c) wt (c_info c)
   | None => []
   end.
-(* 3 = promotePrefixes changes the outcome; 4 = qualifying an unprefixed xsi:type
+(* 8 = reading xsi:nil="1" as nil changes the outcome;
+   3 = promotePrefixes changes the outcome; 4 = qualifying an unprefixed xsi:type
    value with the element's namespace changes the outcome *)
 Definition case_flags_all (c : case) : list N :=
   case_flags c ++
-  (if dres_eqb (model_reply c) (model_reply_with false false c) then [] else [3%N]) ++
-  (if dres_eqb (model_reply c) (model_reply_with true true c) then [] else [4%N]).
+  (if dres_eqb (model_reply c) (model_reply_with false false false c) then [] else [3%N]) ++
+  (if dres_eqb (model_reply c) (model_reply_with true true false c) then [] else [4%N]) ++
+  (if dres_eqb (model_reply c) (model_reply_with false true true c) then [] else [8%N]).
 Definition has_flag (k : N) (c : case) : bool := existsb (N.eqb k) (case_flags_all c).
